@@ -17,6 +17,7 @@ Definition cost (kind : nat) (a b c : float) (x : float) : float :=
   | 0%nat => a * (x - b) * (x - b) + c
   | 1%nat => a * (x - b) * (x - b) * (x - b) * (x - b) + c * x
   | 2%nat => a * x * x * x + b * x * x + c * x
+  | 4%nat => c + 0 * x
   | _ => a * x + b
   end.
 
